@@ -42,7 +42,7 @@ Generate == /\ stage = "sampled"
             /\ stage' = "generated" /\ UNCHANGED <<jds, net, hist>>
 
 (* pairs of a clique on the tuple t; a vertex occurring twice in t yields the self-loop {v} *)
-PairsOfTuple(t) == {{t[x[1]], t[x[2]]} : x \in {y \in DOMAIN t \X DOMAIN t : y[1] # y[2]}}
+PairsOfTuple(t) == {{t[x[1]], t[x[2]]} : x \in {y \in (DOMAIN t) \X (DOMAIN t) : y[1] # y[2]}}
 MotifList == LET RECURSIVE flat(_, _)
                  flat(k, acc) == IF k > K THEN acc
                                  ELSE flat(k + 1, acc \o [i \in DOMAIN motifs[k] |-> [top |-> k, verts |-> motifs[k][i]]])
